@@ -174,6 +174,7 @@ func c13Rules(p *core.Prog, r *core.Run) {
 
 	// --- PTR
 	c13Pointers(p, r, nl)
+	c13DecoderStateless(p, r, nl)
 
 	// --- PAD
 	c13Padding(p, r, pad, mb, rbS)
@@ -420,6 +421,11 @@ func c13DecoderKeys(p *core.Prog, r *core.Run, dht *ssa.Function, rule string) {
 			}
 		}
 		r.Check(rule, fmt.Sprintf("decoder:%s#%d", fld, n), under == k, p.InstrPos(in), "HTTPS.%s is set from the parameter with key %s only (here under key %q)", fld, k, under)
+		// the presence of the no-default-alpn key is what the flag says
+		if st, ok := in.(*ssa.Store); ok && fld == "NoDefaultALPN" {
+			v := p.X(st.Val)
+			r.Check(rule, fmt.Sprintf("decoder:%s-value#%d", fld, n), v.Op == "const" && v.Name == "true", p.InstrPos(in), "HTTPS.NoDefaultALPN is true whenever the key is present, whatever else the record holds and in whatever order: %s", short(v))
+		}
 		// a list of the record is grown from itself (or from nothing): records
 		// of one message do not share storage
 		if st, ok := in.(*ssa.Store); ok && (fld == "ALPN" || fld == "IPv4Hint" || fld == "IPv6Hint") {
@@ -1093,7 +1099,99 @@ func c13RCode(p *core.Prog, r *core.Run, rc *ssa.Function, rule string) {
 					}
 				}
 			}
+			// the search written as a loop: this way out lies behind the loop over
+			// the additional section having run dry, and every way round that
+			// loop saw a record that is not an OPT record
+			if !noOpt {
+				for h, body := range core.Loops(rc) {
+					iff, isIf := h.Instrs[len(h.Instrs)-1].(*ssa.If)
+					if !isIf || body[ret.Block()] || !h.Dominates(ret.Block()) {
+						continue
+					}
+					hf := p.FactOf(core.Guard{Cond: iff.Cond, Pol: true, If: iff})
+					if !(hf.Op == "<" && hf.R != nil && hf.R.Op == "call" && hf.R.Name == "len" && hf.R.Args[0].Op == "field" && hf.R.Args[0].Name == "Additional") {
+						continue
+					}
+					dry := false
+					nf := p.FactOf(core.Guard{Cond: iff.Cond, Pol: false, If: iff})
+					for _, f := range w.fs {
+						if f.String() == nf.String() {
+							dry = true
+						}
+					}
+					allNot := true
+					for b := range body {
+						for _, s := range b.Succs {
+							if s != h || b == h {
+								continue
+							}
+							not41 := false
+							for _, f := range p.EdgeFacts(b, h) {
+								if f.Op == "!=" && f.R != nil && f.R.Name == "41" && f.L.Op == "field" && f.L.Name == "Type" {
+									not41 = true
+								}
+							}
+							if !not41 {
+								allNot = false
+							}
+						}
+					}
+					if dry && allNot {
+						noOpt = true
+					}
+				}
+			}
 			r.Check(rule, fmt.Sprintf("short-form-only-without-OPT#%d.%d", i, k), noOpt, p.InstrPos(ret), "the header-bits-only value is returned only when no OPT record was found: %s", short(w.e))
 		}
 	}
+}
+
+// c13DecoderStateless: the decoder is the message's bytes and nothing else.
+// Its methods write nothing that is reachable from their receiver, so what
+// one name, record or section of a message decodes to does not depend on what
+// was decoded before it (a budget, a position or a buffer kept in the decoder
+// would make a valid encoding fail, or decode differently, depending on its
+// neighbours).
+func c13DecoderStateless(p *core.Prog, r *core.Run, nl *ssa.Function) {
+	recvOf := func(fn *ssa.Function) *types.Named {
+		if fn.Signature.Recv() == nil {
+			return nil
+		}
+		n, _ := deref2(fn.Signature.Recv().Type()).(*types.Named)
+		return n
+	}
+	dt := recvOf(nl)
+	if dt == nil {
+		r.Undecided("C13.NAMES", "decoder:stateless", p.Pos(nl.Pos()), "nameLabels is not a method")
+		return
+	}
+	nM, nBad := 0, 0
+	for _, fn := range p.PkgFuncs(DNS) {
+		root := core.Root(fn)
+		if recvOf(root) == nil || recvOf(root).Obj() != dt.Obj() || len(root.Params) == 0 {
+			continue
+		}
+		if fn == root {
+			nM++
+		}
+		for _, b := range fn.Blocks {
+			for _, in := range b.Instrs {
+				var why string
+				if fn == root {
+					why = writesThrough(p, in, root.Params[0])
+				} else if st, ok := in.(*ssa.Store); ok {
+					// a literal of the method: through the captured receiver
+					a := p.X(st.Addr)
+					if a.Any(func(e *core.Expr) bool { return e.Val == ssa.Value(root.Params[0]) }) && !localCopy(a) && p.CellRoot(st.Addr) == nil {
+						why = "store to " + short(a)
+					}
+				}
+				if why != "" {
+					nBad++
+					r.Check("C13.NAMES", fmt.Sprintf("decoder:stateless#%d", nBad), false, p.InstrPos(in), "%s writes state that outlives the call (%s): decoding one part of a message would depend on the parts decoded before", p.FuncName(fn), why)
+				}
+			}
+		}
+	}
+	r.Check("C13.NAMES", "decoder:stateless", nBad == 0 && nM >= 4, p.Pos(nl.Pos()), "methods of the decoder examined: %d; writes through the receiver: %d", nM, nBad)
 }
